@@ -193,6 +193,66 @@ def rule_c(repo, chk):
             good = good and got == want
         chk.ob('C11.c', good, gexp, 'the guard admits keyword matching for a typed keyword prefix (not after *) and always for a ** argument (truth table over key_start x star_count)',
                'rows (key_start, star_count, value): %s' % rows)
+    # the candidate test for a keyword match: an unused name that is keyword-only, or positional-or-keyword and not yet filled
+    # positionally - decided as a boolean function over (kind, unused, positional_count <= i); calls of the two kind helpers of
+    # ParamNameInterface are evaluated through a model that is itself checked against their source
+    KINDS = ('POSITIONAL_ONLY', 'POSITIONAL_OR_KEYWORD', 'VAR_POSITIONAL', 'KEYWORD_ONLY', 'VAR_KEYWORD')
+    model = {}
+    for meth, flag in (('maybe_keyword_argument', 'include_stars'), ('maybe_positional_argument', 'include_star')):
+        mf = repo.find('jedi.inference.names', '_ParamMixin.' + meth)
+        opts = [x for x in stmts_in(mf, (ast.Assign, ast.AnnAssign)) if norm(getattr(x, 'target', None) or x.targets[0]) == 'options']
+        base = [norm(e).split('.')[-1] for e in opts[0].value.elts] if opts and isinstance(opts[0].value, ast.List) else None
+        extra = [norm(c_.args[0]).split('.')[-1] for c_ in calls_in(mf, 'append', nested=True) if norm(c_.func.value) == 'options']
+        ret_ok = any(norm(r.value) == 'self.get_kind() in options' for r in stmts_in(mf, ast.Return))
+        okm = base is not None and len(extra) == 1 and ret_ok and flag in params(mf)
+        chk.ob('C11.c', okm, mf, 'model of %s: kind in %s, plus %s when %s' % (meth, base, extra, flag))
+        model[meth] = (flag, set(base or ()), set(extra))
+
+    def ev(e, env):
+        if isinstance(e, ast.BoolOp):
+            vals = [ev(v, env) for v in e.values]
+            return all(vals) if isinstance(e.op, ast.And) else any(vals)
+        if isinstance(e, ast.UnaryOp) and isinstance(e.op, ast.Not):
+            return not ev(e.operand, env)
+        t = norm(e)
+        if t == 'param_name.string_name not in used_names':
+            return env['unused']
+        if t == 'param_name.string_name in used_names':
+            return not env['unused']
+        if t == 'positional_count <= i' or t == 'i >= positional_count':
+            return env['pc_le_i']
+        if t == 'positional_count > i' or t == 'i < positional_count':
+            return not env['pc_le_i']
+        if isinstance(e, ast.Compare) and len(e.ops) == 1 and norm(e.left) in ('kind', 'param_name.get_kind()'):
+            c_ = e.comparators[0]
+            vals = {norm(x).split('.')[-1] for x in c_.elts} if isinstance(c_, (ast.Tuple, ast.List, ast.Set)) else {norm(c_).split('.')[-1]}
+            o = e.ops[0]
+            if isinstance(o, (ast.Eq, ast.In)):
+                return env['kind'] in vals
+            if isinstance(o, (ast.NotEq, ast.NotIn)):
+                return env['kind'] not in vals
+        if isinstance(e, ast.Call) and isinstance(e.func, ast.Attribute) and norm(e.func.value) == 'param_name' and e.func.attr in model:
+            flag, base, extra = model[e.func.attr]
+            fl = kwarg(e, flag)
+            on = True if fl is None and not e.args else bool((fl if fl is not None else e.args[0]).value)
+            return env['kind'] in (base | (extra if on else set()))
+        raise AnchorError('cannot evaluate %s' % t)
+    cands = [n.test for n in ast.walk(ci) if isinstance(n, ast.If) and 'used_names' in norm(n.test) and 'param_name.string_name' in norm(n.test)]
+    chk.ob('C11.c', len(cands) == 1, ci, 'one candidate test for keyword matching in calculate_index')
+    for t in cands:
+        rows, good, why = [], True, ''
+        try:
+            for kind, unused, ple in itertools.product(KINDS, (True, False), (True, False)):
+                got = bool(ev(t, {'kind': kind, 'unused': unused, 'pc_le_i': ple}))
+                want = unused and (kind == 'KEYWORD_ONLY' or (kind == 'POSITIONAL_OR_KEYWORD' and ple))
+                if got != want:
+                    good = False
+                    rows.append((kind, unused, ple, got))
+        except AnchorError as e_:
+            good, why = False, str(e_)
+        chk.ob('C11.c', good, t, 'a parameter is a candidate for the typed keyword iff its name is unused and it is keyword-only, or '
+               'positional-or-keyword and not already filled positionally (truth table over kind x unused x positional_count <= i)',
+               why or 'differs for (kind, unused, positional_count <= i, value): %s' % rows[:6], key='calculate_index-candidate')
     idx = repo.find('jedi.api.classes', 'Signature.index')
     ok = 'self._call_details.calculate_index(' in norm(idx) and 'resolve_stars=True' in norm(idx)
     chk.ob('C11.c', ok, idx, 'Signature.index is calculate_index over the star-resolved parameters')
